@@ -32,6 +32,7 @@
 #include <babylon/reusable/memory_resource.h>
 
 #include <sys/mman.h>
+#include <unistd.h>
 
 #include <algorithm>
 #include <atomic>
@@ -814,7 +815,14 @@ static int run_pageheap(unsigned seed, size_t ps, size_t cap, int cycles) {
         o.res->release();
         o.blocks.clear();
         ++nreleases;
-        if (rng() % 3 == 0) drain_check();
+        drain_check();
+        if (failures) {
+          // the allocator's cache is corrupt: stop here, skipping destructors that would free pages twice
+          std::printf("pageheap seed=%u ps=%zu cap=%zu cycles=%d stopped at cycle %d blocks=%ld releases=%ld failures=%d\n", seed, ps,
+                      cap, cycles, c, nblocks, nreleases, failures);
+          std::fflush(stdout);
+          _exit(1);
+        }
         continue;
       }
       int k = 1 + static_cast<int>(rng() % 6);
